@@ -85,3 +85,16 @@ CHECKS["C13"] = dict(
          "under zero- and pattern-initialised automatic variables and heap.",
     note="Histories and the marker scrub use the library seam (probe/asmprobe.cpp mirrors main()'s two-pass flow); interactive 'asm' of naken_util "
          "is not drivable from its CLI and is represented by that seam.")
+
+CHECKS["C08"] = dict(
+    level="model_checking", design_ref="DESIGN.md 4/C08",
+    technique="exhaustive enumeration of machine-word cells (all 65 536 values of a half-word x operand fills x addresses) through every per-CPU "
+              "decoder under two uninitialised-memory answers, plus range runs built from every length class and anomalous decode",
+    text="For each of the 68 selectable CPUs every 16-bit pattern of the leading half-word (and of the second half-word for 32-bit ISAs) is decoded "
+         "with 2 (thorough 4) operand fills at 1 (3) addresses through the real single-instruction decoder into an exactly-128-byte heap buffer under a "
+         "sanitizer build: the length must be at least one address unit and at most the architecture's longest instruction, the text NUL-terminated, "
+         "text and length unchanged when every byte after the returned length is complemented, and identical under zero- and pattern-initialised "
+         "stack/heap; the per-CPU range disassemblers are run over images built from every length class and anomalous decode at three placements "
+         "and four sub-ranges and must terminate with a strictly increasing address column that contains every instruction start.",
+    note="Sanitizer findings are the first trigger per code location per cell (ASan deduplicates in recover mode); CPUs whose range printer's address "
+         "column cannot be calibrated (octal or page/offset formats) are reported unjudged; Java/WebAssembly/.NET are exempt from the upper length bound.")
